@@ -386,6 +386,9 @@ def slices(tier):
         # [operator][max/min/sign][pass]: the type of every one-operator expression, observed through
         # the verdict on a min/max against every initial node
         csl("types1", [F, H] if q else [F, H, V], [UN | BIN | {"neg"}, MM, MODE], lits=("two", "i", "half")),
+        # [max/min/sign][type-changing wrapper][pass]: a comparison BELOW abs/real/imag/... — the wrapper's handler types
+        # the result but the operands must still be visited (a handler without operand arguments would be a cutoff)
+        csl("under-wrap", [F, H], [MM, UN | {"neg", "mul"}, MODE], lits=("two", "i")),
         # [comparison][conditional][pass]
         csl("cond1", [F, V] if q else [F, G, V], [CMP, {"cond"}, MODE], lits=("zero", "i")),
         # [comparison][conditional][min/max OF the conditional][pass]: a conditional as a compared operand.  It
